@@ -1,0 +1,7 @@
+// Package verifhook contains instrumentation points used by external verification
+// tooling.
+//
+// In a normal build (without the `verif` build tag) every function in this package is
+// empty and Enabled is the constant false, so the hooks compile to nothing. When built
+// with `-tags verif` events are forwarded to Sink and Gate calls to GateFn, if set.
+package verifhook
